@@ -180,3 +180,30 @@ Proof.
   split; [exact hs_sent_request | exact who2_step]]]].
 Qed.
 Print Assumptions C03_example_whoareyou.
+
+(* Configuration plumbing (Model/Config.v, transcribing ConfigBuilder, Config, Discv5::new / Discv5::start,
+   tied to the code by the `glue` correspondence run on real loopback sockets): the parameters the theorems
+   above take as given are the ones the application configured - the value set last through the builder,
+   or the default - at every component they are handed to. *)
+Require Discv5V.Generated.Params Discv5V.Model.Config Discv5V.Proofs.Config.
+Theorem C03_configured_request_timeout_reaches_the_handler : forall ops v, Discv5V.Model.Config.start_node ops = Some v ->
+  Discv5V.Model.Config.VN (Discv5V.Model.Config.c_request_timeout (Discv5V.Model.Config.nv_built v)) = Discv5V.Model.Config.configured ops Discv5V.Model.Config.FRequestTimeout /\
+  Discv5V.Model.Config.VN (Discv5V.Model.Config.c_request_timeout (Discv5V.Model.Config.nv_service v)) = Discv5V.Model.Config.configured ops Discv5V.Model.Config.FRequestTimeout /\
+  Discv5V.Model.Config.VN (Discv5V.Model.Config.c_request_timeout (Discv5V.Model.Config.nv_handler v)) = Discv5V.Model.Config.configured ops Discv5V.Model.Config.FRequestTimeout.
+Proof. exact Discv5V.Proofs.Config.effective_request_timeout. Qed.
+Print Assumptions C03_configured_request_timeout_reaches_the_handler.
+Theorem C03_configuration_example : exists v, Discv5V.Model.Config.start_node Discv5V.Proofs.Config.example_ops = Some v.
+Proof. destruct Discv5V.Proofs.Config.example_starts as [v [H _]]. exists v. exact H. Qed.
+Print Assumptions C03_configuration_example.
+
+(* The receive task in front of the handler (RecvHandler::handle_inbound, Model/Limiter.v recv_inbound,
+   compared with the real task through the virtual handler on generated datagrams): *)
+Require Discv5V.Model.Limiter Discv5V.Proofs.Limiter.
+Module C03Recv.
+Import Discv5V.Model.Limiter.
+Theorem C03_receive_task_forwards_the_datagram_source : forall (f : pfilter) (p : pbl) (expected : list saddr) (src : saddr) (packet : option pkind) (now : N),
+  let fwd := snd (recv_inbound f p expected src packet now) in
+  fwd = normalise_src src /\ sa_ip fwd = sa_ip src /\ sa_port fwd = sa_port src /\ sa_flow fwd = 0%N /\ sa_scope fwd = 0%N.
+Proof. exact Discv5V.Proofs.Limiter.inbound_forwards_normalised_source. Qed.
+Print Assumptions C03_receive_task_forwards_the_datagram_source.
+End C03Recv.
